@@ -55,6 +55,11 @@ var Bases = []string{
 	"foo:?bq",
 	"foo:#bf",
 	"foo://h?bq#bf",
+	// bases whose HOST parser reports something: a non-fatal validation error (hex IPv4 part, trailing dot, a
+	// malformed escape in an opaque host) and a fatal one
+	"http://0x7f.1/a/b",
+	"foo://a%zz/p",
+	"http://a b/c",
 	"not a url",
 	"http://",
 	"//h/p",
